@@ -16,7 +16,7 @@ from symx import Obligation, Violation
 
 CLASSES = ["BinaryCarver", "ContinuousCarver", "MulticlassCarver", "Discretizer", "QuantitativeDiscretizer", "QualitativeDiscretizer"]
 CORRUPTIONS = ["y_nan", "y_classes", "y_index", "x_type", "y_type", "x_missing_col", "xdev_missing_col", "both_lists", "str_in_quant", "ordinal_unknown", "refit",
-               "refit_other_data", "transform_missing_col"]
+               "refit_other_data", "transform_missing_col", "refit_all_dropped"]
 N = 12
 
 
@@ -102,7 +102,50 @@ def h_malformed(ctx, cls, corruption, fitted_before):
         raise
 
 
+def _h_all_dropped(ctx, cls):
+    """A successful first fit that drops every requested feature still makes the object a fitted one: a second fit is refused."""
+    X = base_sample()
+    y = target(cls, X)
+    variant = ctx.choose("variant", 2)
+    X["f"] = 1.0 if variant == 0 else [1.0] * (N - 1) + [2.0]   # constant / almost constant quantitative column
+    X["q"] = [f"id{i}" for i in range(N)]                       # identifier-like qualitative column
+    if cls in ("QualitativeDiscretizer",):
+        obj = build(cls, qualitative_features=["q"], ordinal_features=[], values_orders={})
+    elif cls == "QuantitativeDiscretizer":
+        obj = build(cls)
+    elif cls == "Discretizer":
+        obj = build(cls, quantitative_features=[], qualitative_features=["q"], ordinal_features=[], values_orders={})
+    else:
+        which = ctx.choose("which", 2)
+        obj = build(cls, quantitative_features=["f"] if which == 0 else [], qualitative_features=["q"] if which == 1 else [], ordinal_features=[], values_orders={})
+    try:
+        obj.fit(X, y)
+    except AssertionError:
+        return dict(counters={"skipped": 1})
+    if len(obj.features) > 0:
+        return dict(counters={"skipped": 1})
+    before = state_of(obj, X)
+    detail = f"second fit after a fit that dropped every feature ({cls}, variant {variant})"
+    try:
+        obj.fit(X, y)
+        outcome = "accepted"
+    except AssertionError:
+        outcome = "AssertionError"
+    except Violation:
+        raise
+    except Exception as e:
+        outcome = f"{type(e).__name__}: {str(e)[:120]}"
+    ctx.require(outcome != "accepted", "C19.malformed-accepted", f"{cls}: {detail} was accepted")
+    ctx.require(outcome == "AssertionError", "C19.wrong-exception", f"{cls}: {detail} raised {outcome} instead of AssertionError")
+    after = state_of(obj, X)
+    for key in ("features", "vo", "json", "transform"):
+        ctx.require(after[key] == before[key], "C19.rejected-call-mutated-state", f"{cls}: rejected call ({detail}) changed the fitted object's {key}")
+    return dict(counters={"rejected": 1, "all_dropped": 1}, sample=dict(cls=cls, corruption="refit_all_dropped", detail=detail), result=dict(outcome=outcome))
+
+
 def _h_malformed(ctx, cls, corruption, fitted_before):
+    if corruption == "refit_all_dropped":
+        return _h_all_dropped(ctx, cls)
     X = base_sample()
     y = target(cls, X)
     obj = build(cls)
@@ -281,7 +324,7 @@ def obligations(tier):
         for corruption in CORRUPTIONS:
             if not applicable(cls, corruption):
                 continue
-            if corruption in ("refit", "refit_other_data", "transform_missing_col"):
+            if corruption in ("refit", "refit_other_data", "transform_missing_col", "refit_all_dropped"):
                 jobs.append(dict(cls=cls, corruption=corruption, fitted_before=True))
             elif corruption == "both_lists":
                 jobs.append(dict(cls=cls, corruption=corruption, fitted_before=False))
